@@ -3,26 +3,37 @@
 Families (all on both engines; Explorer A interleaves application gates / arrival where it matters)
   incomplete   h11_max_incomplete_size in {16, 64, 1024} x request heads of size limit-8 .. limit+40 and >>,
                terminated or never terminated, fed whole / every two-way split on a lattice / byte by byte
-  keepalive    keep_alive_max_requests in {1, 2, 3} x 1..max+2 requests, sequential or pipelined (HTTP/1) or as
-               HTTP/2 streams (one after the other)
+  keepalive    keep_alive_max_requests in {1, 2, 3} (HTTP/2 also 0) x 1..max+2 requests, sequential or pipelined
+               (HTTP/1) or as HTTP/2 streams one after the other (over TLS; after an h2c upgrade, the upgraded request
+               being the first; modes h2p1 / h2p2: the application of every request of the client first pushes one /
+               two requests with http.response.push, which the application serves as well); max in {1, 2} also with
+               include_date_header and include_server_header off (the server adds no header of its own)
   streams      h2_max_concurrent_streams in {1, 2} x k in 1..3 streams opened at once (applications gated so that
                they really are concurrent), the client ignoring the advertised limit
   headerlist   h2_max_header_list_size in {64, 256} x header blocks below / above the limit
   recycle      max_requests in {1, 2, 3} x max_requests_jitter in {0, 1, 2} with EVERY value randint may return,
                requests spread over 1..3 connections, on the real worker_serve()
+  rehist       HISTORIES: ONE Config object (max_requests in {0, 1, 2} x max_requests_jitter in {0, 1, 2}) handed to the
+               real worker_serve() two / three times in a row (an in-process supervisor loop), every combination of
+               the jitter values drawn by the successive workers, max+jitter+2 requests offered to each worker
 
 Oracle
   incomplete-head-served / incomplete-head-not-rejected   a head still incomplete beyond the limit reached the
                application / did not get a 4xx followed by close
   small-head-rejected        a complete head within the limit was not served
-  too-many-requests          more than max (HTTP/2: max+1) application instances on one connection
-  close-not-announced        the limit was reached but the client was not told (connection: close / GOAWAY)
-  under-limit-refused        a request below the limit was not served
+  too-many-requests          a request of the client was taken on although max (HTTP/2: max+1) requests - its own and,
+               HTTP/2, those the application pushed - had been taken on with an earlier request of the client
+  close-not-announced        the limit was reached (with a request of the client max resp. max+1 requests have been
+               taken on) but the client was not told (connection: close / GOAWAY)
+  under-limit-refused        a request below the limit was not served (pushing applications: the first request only)
   over-stream-limit-served   more application instances alive at once than h2_max_concurrent_streams
   admitted-stream-broken     a stream within the limit, complete before the excess arrived, lost its response
   oversize-headers-served    a header block above the limit reached the application
   recycle-early / recycle-late   the worker began shutting down with <= max+jitter requests taken on / did not
-               begin although more than max+jitter had been taken on
+               begin although more than max+jitter had been taken on (rehist: each worker against the CONFIGURED
+               max_requests plus the jitter IT drew, key rehist:...:serve<k>)
+  config-changed-by-serve    (rehist) after a worker_serve() the Config no longer holds the configured values: the
+               next worker started from it would not enforce the limits that were configured (key rehist:<attribute>)
 """
 from __future__ import annotations
 
@@ -31,29 +42,48 @@ from typing import Any, List
 
 import h2.settings
 
+import os
+
 from mc.clients import Client, h1_request, h2_request_headers
-from mc.explore import V
-from mc.harness import internal_errors, std_execute
+from mc.core import Chooser, Point, digest
+from mc.explore import ExecResult, V
+from mc.harness import (WATCHDOG_S, NeverYields, default_observation, describe, generic_violations, internal_errors,
+                        std_execute, watchdog)
 
 ID = "C18"
 LEVEL = "model_checking"
 TECHNIQUE = ("bounded exhaustive enumeration of limit values x client behaviour approaching/hitting/exceeding each limit "
-             "x segmentation, with every randint outcome enumerated as a data choice, on the real protocol and worker code")
-RULE = ("scenario = engine x family x limit value x client shape (x split); randint values and gate releases are choice "
+             "x segmentation (x pushing applications, x server-header switches), with every randint outcome enumerated as a "
+             "data choice, and of histories of several worker_serve() calls sharing one Config object, on the real protocol "
+             "and worker code")
+RULE = ("scenario = engine x family x limit value x client shape (x split | x number of serves); randint values and gate releases are choice "
         "points; non-trivial = instance ran or the request was refused, and the case is at or beyond a boundary; "
         "distinct by observation digest")
 ASSUMPTIONS = [
     "h11 counts an event as incomplete only when a read ends before the head is complete: heads complete within one "
     "read are outside the 'still incomplete after N bytes' clause and are not judged against the size limit",
     "respawning a recycled worker belongs to the master process and is outside",
+    "pushed requests (http.response.push) are requests taken on on the connection, but the limit is only judged at the "
+    "requests of the client (telling the client to stop does not stop the server's own pushes); how much a pushed "
+    "request weighs is left to the server, so with pushing applications 'told to stop too early' is not judged",
+    "rehist: the workers follow one another in one process (never two at once) and share nothing but the Config object; "
+    "the Logger a Config caches (config._log) is dropped by the harness between serves and is not part of the comparison",
 ]
-BOUNDS_DOC = {"quick": "M=0..1, S<=2", "thorough": "M<=1, S<=3, trio R<=1; every split point"}
+BOUNDS_DOC = {"quick": "M=0..1, S<=2; rehist: 2 serves S<=1, 3 serves S=0, all (jitter+1)^serves draws",
+              "thorough": "M<=1, S<=3, trio R<=1; every split point; rehist: 2 serves S<=2, 3 serves S<=1, trio R<=1"}
 BUDGET = {"quick": 300, "thorough": 1800}
 
 OK = [("recv_body",), ("send", {"type": "http.response.start", "status": 200, "headers": [(b"content-length", b"2")]}),
       ("send", {"type": "http.response.body", "body": b"ok", "more_body": False})]
 GATED = [("recv_body",), ("gate", "g")] + OK[1:]
 MCS = h2.settings.SettingCodes.MAX_CONCURRENT_STREAMS
+# keepalive modes; h2p1 / h2p2: HTTP/2 where the application of every client request pushes one / two requests
+# (http.response.push) before it answers - the pushed requests are served by the application like any other
+KA_MODES = ("seq", "seq_early", "seq_ka", "pipe", "h2", "h2c", "h2p1", "h2p2")
+H2_MODES = ("h2", "h2c", "h2p1", "h2p2")
+PUSH_MODES = ("h2p1", "h2p2")
+PUSH = ("send", {"type": "http.response.push", "path": "/pushed", "headers": []})
+NO_SERVER_HEADERS = {"include_date_header": False, "include_server_header": False}
 
 
 class LawlessClient(Client):
@@ -101,10 +131,15 @@ def scenarios(tier: str) -> List[Any]:
                             out.append((engine, "incomplete", limit, size, term, c))
                     if size <= 130:
                         out.append((engine, "incomplete", limit, size, term, "bytes"))
-        for mx in (1, 2, 3):
+        for mx in (0, 1, 2, 3):
             for n in range(1, mx + 3):
-                for mode in ("seq", "seq_early", "seq_ka", "pipe", "h2", "h2c"):
+                for mode in KA_MODES:
+                    if mx == 0 and mode not in H2_MODES:
+                        continue  # HTTP/1: a connection cannot serve fewer than one request
                     out.append((engine, "keepalive", mx, n, mode, 0))
+                    if mx in (1, 2) and mode not in PUSH_MODES:
+                        # the server adds no headers of its own (no date, no server, no alt-svc)
+                        out.append((engine, "keepalive", mx, n, mode, "nohdr"))
         for mcs in (0, 1, 2):
             for k in (1, 2, 3):
                 out.append((engine, "streams", mcs, k, 0, 0))
@@ -122,6 +157,11 @@ def scenarios(tier: str) -> List[Any]:
                     # (the upgraded request becomes stream 1) and HTTP/2 over TLS
                     out.append((engine, "recycle", mr, jit, mr + jit + 2, "h2c"))
                     out.append((engine, "recycle", mr, jit, mr + jit + 2, "h2"))
+        # the SAME Config object handed to worker_serve() two / three times in a row (a supervisor loop in one process)
+        for mr in (0, 1, 2):
+            for jit in (0, 1, 2):
+                for serves in (2, 3):
+                    out.append((engine, "rehist", mr, jit, serves, 0))
     return out
 
 
@@ -132,7 +172,11 @@ def bounds(tier: str, params: Any) -> dict:
     if tier == "quick":
         if fam == "recycle":
             return {"M": 0, "S": 2 if params[4] < 3 else 1, "R": 0}
+        if fam == "rehist":  # (the jitter draws are data choices: every combination over the serves, whatever S is)
+            return {"M": 0, "S": 1 if params[4] < 3 else 0, "R": 0}
         return {"M": 1, "S": 2, "R": 0}
+    if fam == "rehist":
+        return {"M": 0, "S": 2 if params[4] < 3 else 1, "R": 1 if params[0] == "trio" else 0}
     return {"M": 1, "S": 3, "R": 1 if params[0] == "trio" else 0}
 
 
@@ -153,8 +197,11 @@ def build(params: Any) -> tuple:
               "sources": [("client", [("data", 0, p) for p in parts if p])], "midflight": False, "sigs": False}
         return engine, sc
     if fam == "keepalive":
-        _, _, mx, n, mode, _ = params
-        if mode == "h2":
+        _, _, mx, n, mode, hdr = params
+        apps: dict = {"http": OK}
+        if mode in ("h2",) + PUSH_MODES:
+            if mode in PUSH_MODES:
+                apps = {"http": [OK[0]] + [PUSH] * int(mode[3:]) + OK[1:], "http:/pushed": OK}
             client = [("cmd", 0, "preface")]
             for i in range(n):
                 client.append(("cmd", 0, "headers", 1 + 2 * i, h2_request_headers(b"GET", b"/r%d" % i), True))
@@ -191,8 +238,8 @@ def build(params: Any) -> tuple:
             if mode == "seq_ka":  # the application insists on keep-alive in its own response headers
                 apps = {"http": [OK[0], ("send", {**OK[1][1], "headers": OK[1][1]["headers"] + [(b"connection", b"keep-alive")]}), OK[2]]}
         # sequential mode: each request is sent only once the previous response is complete
-        sc = {**base, "conns": {0: conn}, "apps": apps if mode in ("seq_early", "seq_ka") else {"http": OK},
-              "config": {"keep_alive_max_requests": mx, "keep_alive_timeout": 5},
+        sc = {**base, "conns": {0: conn}, "apps": apps,
+              "config": {"keep_alive_max_requests": mx, "keep_alive_timeout": 5, **(NO_SERVER_HEADERS if hdr == "nohdr" else {})},
               "sources": [("client", client)], "midflight": False,
               "guards": {"resp_count": _resp_guard, "wait_h2": _wait_h2, "resp_heads": _resp_n_guard, "resp_done": _resp_n_guard}}
         return engine, sc
@@ -334,34 +381,46 @@ def oracle(w: Any, params: Any) -> List[dict]:
     elif fam == "keepalive":
         _, _, mx, n, mode, _ = params
         rec = w.conns[0]
-        allowed = mx + 1 if mode in ("h2", "h2c") else mx
+        allowed = mx + 1 if mode in H2_MODES else mx
         tag = f"{mode}:max{mx}"
-        if len(reqs) > allowed:
-            out.append(V("too-many-requests", tag, f"{len(reqs)} instances with {n} requests sent"))
+        # what the property counts: the requests taken on on this connection - the client's own (`mine`) and, on HTTP/2,
+        # those the application pushed - in the order in which they were taken on
+        mine = [i for i in reqs if i.scope["path"].startswith("/r")]
+        # the client's request with which `allowed` requests have been taken on: with it the client has to be told to stop
+        stop_at = next((k for k, i in enumerate(reqs) if k + 1 >= allowed and i in mine), None)
+        beyond = [] if stop_at is None else [i for i in reqs[stop_at + 1:] if i in mine]
+        if beyond:
+            out.append(V("too-many-requests", tag, f"{len(reqs)} instances ({len(mine)} of them requests of the client, {n} sent): "
+                         f"{[i.scope['path'] for i in reqs]}; the client's {beyond[0].scope['path']} was taken on after "
+                         f"{stop_at + 1} requests had been"))
         sent = sum(1 for _, e in w.driver.fired if (e[0] == "cmd" and e[2] == "headers") or e[0] == "data")
+        # (how a pushed request counts towards the limit is the server's business - it may well tell the client to stop
+        # early -: with a pushing application only the first request of the client is demanded to be served)
+        expect = min(n, allowed) if mode not in PUSH_MODES else min(n, 1)
         if mode != "pipe":
-            expect = min(n, allowed)
-            if len(reqs) < min(expect, sent if mode not in ("seq", "seq_early", "seq_ka") else n):
-                out.append(V("under-limit-refused", tag, f"{len(reqs)} instances, {n} requests, allowed {allowed}"))
+            if len(mine) < min(expect, sent if mode not in ("seq", "seq_early", "seq_ka") else n):
+                out.append(V("under-limit-refused", tag, f"{len(mine)} instances, {n} requests, allowed {allowed}"))
         else:
-            if len(reqs) < min(n, allowed):
-                out.append(V("under-limit-refused", tag, f"{len(reqs)} instances, {n} pipelined requests, allowed {allowed}"))
+            if len(mine) < expect:
+                out.append(V("under-limit-refused", tag, f"{len(mine)} instances, {n} pipelined requests, allowed {allowed}"))
         # every request that was taken on is answered completely ("served"), including the last allowed one
-        if mode in ("h2", "h2c"):
-            for i, inst in enumerate(reqs):
+        if mode in H2_MODES:
+            for i, inst in enumerate(mine):
                 sid = 1 + 2 * int(inst.scope["path"][2:])
                 st = rec.client.h2.streams.get(sid)
                 if st is None or not st["ended"] or st["body"] != b"ok" or st["status"] != 200:
-                    out.append(V("served-request-truncated", tag, f"request {i} (stream {sid}) reached the application but its response is {st}"))
+                    out.append(V("served-request-truncated", f"{'h2' if mode in PUSH_MODES else mode}:max{mx}",
+                                 f"{mode}: request {i} (stream {sid}) reached the application but its response is {st}"))
         else:
             rs = rec.client.h1.responses
             for i, inst in enumerate(reqs):
                 if i >= len(rs) or not rs[i]["complete"] or rs[i]["body"] != b"ok":
                     out.append(V("served-request-truncated", tag, f"request {i} reached the application but its response is incomplete"))
-        if n >= allowed and len(reqs) >= allowed:
-            if mode in ("h2", "h2c"):
+        if stop_at is not None:
+            if mode in H2_MODES:
                 if rec.client.h2.goaway is None:
-                    out.append(V("close-not-announced", tag, "no GOAWAY although the request limit was reached"))
+                    out.append(V("close-not-announced", tag, f"no GOAWAY although {stop_at + 1} requests have been taken on "
+                                 f"({[i.scope['path'] for i in reqs]}), the limit is {mx}"))
             else:
                 rs = rec.client.h1.responses
                 last = rs[allowed - 1] if len(rs) >= allowed else None
@@ -398,21 +457,112 @@ def oracle(w: Any, params: Any) -> List[dict]:
             out.append(V("under-limit-refused", tag, f"header list of {size} bytes refused"))
     elif fam == "recycle":
         _, _, mr, jit, nconn, _ = params
-        j = next((p.info for p in w.chooser.trace if p.kind == "data"), None)
         jv = next((p.choice for p in w.chooser.trace if p.kind == "data"), 0)  # randint(0, jit) == choice index
-        threshold = mr + jv
-        life = next((i for i in w.instances if i.type == "lifespan"), None)
-        began = life is not None and any(m["type"] == "lifespan.shutdown" for m in life.delivered())
-        tag = f"max{mr}:jit{jit}:r{jv}"
-        taken = len(reqs)
-        if began and taken <= threshold:
-            out.append(V("recycle-early", tag, f"shutdown began with {taken} requests taken on, threshold {threshold}"))
-        settled = w.driver.remaining() == 0 or w.serve_result is not None or \
-            all(w.driver.pos[i] == len(evs) or evs[w.driver.pos[i]][0] == "tick" for i, (_, evs) in enumerate(w.driver.sources))
-        if not began and taken > threshold and settled:
-            out.append(V("recycle-late", tag, f"{taken} requests taken on, threshold {threshold}, worker still serving"))
+        out.extend(_recycle_verdict(w, mr, jv, f"max{mr}:jit{jit}:r{jv}"))
     out.extend(internal_errors(w))
     return out
 
 
-execute = std_execute(build, oracle)
+def _recycle_verdict(w: Any, mr: int, jv: int, tag: str) -> List[dict]:
+    """One worker_serve(): `jv` is the jitter this worker drew; it has to begin its exit with request mr + jv + 1."""
+    out: List[dict] = []
+    reqs = [i for i in w.instances if i.type == "http"]
+    threshold = mr + jv
+    life = next((i for i in w.instances if i.type == "lifespan"), None)
+    began = life is not None and any(m["type"] == "lifespan.shutdown" for m in life.delivered())
+    taken = len(reqs)
+    if began and taken <= threshold:
+        out.append(V("recycle-early", tag, f"shutdown began with {taken} requests taken on, threshold {threshold}"))
+    settled = w.driver.remaining() == 0 or w.serve_result is not None or \
+        all(w.driver.pos[i] == len(evs) or evs[w.driver.pos[i]][0] == "tick" for i, (_, evs) in enumerate(w.driver.sources))
+    if not began and taken > threshold and settled:
+        out.append(V("recycle-late", tag, f"{taken} requests taken on, threshold {threshold}, worker still serving"))
+    return out
+
+
+# ---------------------------------------------------------------------------------------------
+# family rehist: one Config object, worker_serve() called with it several times in a row
+
+
+def _config_view(cfg: Any) -> dict:
+    """Every data attribute of a Config (class defaults, instance values, the private backing fields)."""
+    out = {}
+    for name in dir(cfg):
+        if name.startswith("__") or name in ("logger_class", "log", "_log"):  # (the engine's recording logger; the Logger cache)
+            continue
+        if isinstance(getattr(type(cfg), name, None), property) or callable(getattr(cfg, name)):
+            continue
+        out[name] = repr(getattr(cfg, name))
+    return out
+
+
+def _execute_rehist(params: Any, prefix: List[int]) -> ExecResult:
+    from hypercorn.config import Config
+
+    engine, _, mr, jit, serves, _ = params
+    _, sc0 = build((engine, "recycle", mr, jit, 1, 0))
+    cfg = Config()  # the one Config object of the whole history
+    for key, value in sc0["config"].items():
+        setattr(cfg, key, value)
+    configured = _config_view(cfg)
+    chooser = Chooser(prefix)  # one choice sequence over all the serves (randint values, interleaving)
+    worlds: List[Any] = []
+    viol: List[dict] = []
+    views = []
+    try:
+        with watchdog(WATCHDOG_S):
+            for j in range(serves):
+                _, sc = build((engine, "recycle", mr, jit, 1, 0))
+                sc["config"] = {}
+                sc["config_object"] = cfg
+                cfg._log = None  # (harness: the Logger a Config caches records into the world it was created in)
+                if engine == "asyncio":
+                    from mc import aio
+                    w = aio.AioWorld(sc, chooser).run()
+                else:
+                    from mc import tri
+                    w = tri.TrioWorld(sc, chooser).run()
+                for rec in w.conns.values():
+                    if rec.client is not None and (rec.closed_at is not None or rec.server_eof_at is not None):
+                        rec.client.on_close(rec.closed_at if rec.closed_at is not None else rec.server_eof_at)
+                worlds.append(w)
+                draws = [p.choice for p in chooser.trace if p.kind == "data"]
+                jv = draws[j] if j < len(draws) else 0
+                tag = f"rehist:max{mr}:jit{jit}:serve{j + 1}"
+                for v in _recycle_verdict(w, mr, jv, tag):
+                    v["detail"] = f"serve #{j + 1} of {serves} with the same Config object (jitter drawn so far {draws}): " + v["detail"]
+                    viol.append(v)
+                viol.extend(generic_violations(w))
+                viol.extend(internal_errors(w))
+                # the limits the NEXT worker is started with are the configured ones
+                now = _config_view(cfg)
+                views.append(tuple(sorted(now.items())))
+                for name in sorted(set(now) | set(configured)):
+                    if now.get(name) != configured.get(name):
+                        viol.append(V("config-changed-by-serve", f"rehist:{name}",
+                                      f"after serve #{j + 1} config.{name} = {now.get(name)}, configured {configured.get(name)}"))
+                if os.environ.get("MC_VERBOSE"):
+                    print(f"======== serve #{j + 1} of {serves}; config.max_requests={cfg.max_requests!r} "
+                          f"max_requests_jitter={cfg.max_requests_jitter!r}")
+                    describe(w)
+    except NeverYields as e:
+        return ExecResult([Point(1, c, "replay") for c in prefix],
+                          [V("never-yields", str(e)[:80], f"execution exceeded {WATCHDOG_S}s of wall time inside one step")],
+                          "never-yields", True, (), {"params": repr(params)[:300], "choices": list(prefix)})
+    obs = (tuple(default_observation(w) for w in worlds), tuple(views))
+    sigs = set()
+    for w in worlds:
+        sigs |= set(w.sigs)
+    sample = {"params": repr(params)[:400], "engine": engine, "choices": chooser.choices[:40],
+              "requests per serve": [sum(1 for i in w.instances if i.type == "http") for w in worlds],
+              "serve results": [w.serve_result for w in worlds]}
+    return ExecResult(chooser.trace, viol, digest(obs), any(w.instances for w in worlds) and any(chooser.choices), sigs, sample)
+
+
+_std = std_execute(build, oracle)
+
+
+def execute(params: Any, prefix: List[int]) -> ExecResult:
+    if params[1] == "rehist":
+        return _execute_rehist(params, prefix)
+    return _std(params, prefix)
